@@ -1,12 +1,251 @@
-//! Family `aset`: C17 — animation sets.  (stub)
-#![allow(unused)]
+//! Family `aset`: C17 — animation-set files.
+//! Case line: `<id> aset <meta> c:<clip,…> s:<label,slot1,…>*`
+//! (names: `~` absent, `-` empty, else hex of UTF-8).
+//! Output: `panic` | `err` | `ok <size|?> <bytes> rr-err|rr-panic`
+//!       | `ok <size> <bytes> rr-ok <re-read value> <same|hex|err|panic>`.
 use crate::util::*;
+use mila::{ASetFile, BinArchive, Endian};
 
-pub fn gen(_seed: u64, _tier: &str) -> Vec<String> {
-    Vec::new()
+type Name = Option<String>;
+
+fn show_opt(n: &Name) -> String {
+    match n {
+        None => "~".to_string(),
+        Some(s) => hexs(s),
+    }
+}
+fn opt_of(s: &str) -> Name {
+    if s == "~" {
+        None
+    } else {
+        Some(unhexs(s))
+    }
+}
+fn show_list(tag: &str, l: &[Name]) -> String {
+    format!("{}{}", tag, l.iter().map(show_opt).collect::<Vec<_>>().join(","))
+}
+fn list_of(s: &str) -> Vec<Name> {
+    let body = &s[2..];
+    if body.is_empty() {
+        Vec::new()
+    } else {
+        body.split(',').map(opt_of).collect()
+    }
+}
+fn show_file(f: &ASetFile) -> String {
+    let mut parts = vec![show_opt(&f.meta), show_list("c:", &f.anim_clip_table)];
+    for s in &f.sets {
+        parts.push(show_list("s:", s));
+    }
+    parts.join("/")
+}
+
+/// Characters of the sub-codec shared with the Lean model: ASCII (NUL-free), half-width
+/// katakana, hiragana, katakana.
+pub fn rand_char(rng: &mut Rng) -> char {
+    match rng.below(10) {
+        0..=5 => char::from_u32(rng.range(0x20, 0x7E) as u32).unwrap(),
+        6 => char::from_u32(rng.range(0x01, 0x7F) as u32).unwrap(),
+        7 => char::from_u32(rng.range(0xFF61, 0xFF9F) as u32).unwrap(),
+        8 => char::from_u32(rng.range(0x3041, 0x3093) as u32).unwrap(),
+        _ => char::from_u32(rng.range(0x30A1, 0x30F6) as u32).unwrap(),
+    }
+}
+
+const POOL: [&str; 14] = [
+    "", "a", "b", "idle", "run", "attack_1", "AnimClipNameTable", "label", "ウマ", "よろける", "ｱﾆﾒ", "x y",
+    "A", "none1",
+];
+
+pub fn rand_name(rng: &mut Rng) -> String {
+    if rng.chance(1, 2) {
+        rng.pick(&POOL).to_string()
+    } else {
+        let n = rng.range(0, 9) as usize;
+        (0..n).map(|_| rand_char(rng)).collect()
+    }
+}
+
+fn rand_label(rng: &mut Rng) -> Name {
+    match rng.below(8) {
+        0 | 1 => None,
+        2 => Some("AnimClipNameTable".to_string()),
+        3 => Some(String::new()),
+        _ => Some(rand_name(rng)),
+    }
+}
+
+/// One set of `len` entries (entry 0 = label) following a presence pattern.
+fn rand_set(rng: &mut Rng, len: usize) -> Vec<Name> {
+    let mut set: Vec<Name> = vec![None; len];
+    if len == 0 {
+        return set;
+    }
+    set[0] = rand_label(rng);
+    let pattern = rng.below(9);
+    let group_mask: u32 = match rng.below(4) {
+        0 => 0xFF,
+        1 => rng.below(256) as u32,
+        2 => 1 << rng.below(8),
+        _ => (rng.below(256) & rng.below(256)) as u32,
+    };
+    for k in 1..len {
+        let g = (k - 1) / 32;
+        let j = (k - 1) % 32;
+        let on = match pattern {
+            0 => true,                                          // dense
+            1 => rng.chance(1, 16),                             // sparse
+            2 => false,                                         // all absent
+            3 => group_mask & (1 << (g % 8)) != 0 && rng.chance(1, 2), // some groups empty
+            4 => j == 31 && group_mask & (1 << (g % 8)) != 0,   // last slot of a group only
+            5 => j == 0 && group_mask & (1 << (g % 8)) != 0,    // first slot of a group only
+            6 => group_mask & (1 << (g % 8)) != 0,              // whole groups
+            7 => rng.chance(1, 2),
+            _ => rng.chance(15, 16),
+        };
+        if on {
+            set[k] = Some(rand_name(rng));
+        }
+    }
+    set
+}
+
+fn single_slot_set(rng: &mut Rng, slot: usize) -> Vec<Name> {
+    let mut set: Vec<Name> = vec![None; 257];
+    set[0] = rand_label(rng);
+    set[slot] = Some(rand_name(rng));
+    set
+}
+
+fn rand_table(rng: &mut Rng, len: usize) -> Vec<Name> {
+    let density = *rng.pick(&[0u64, 1, 4, 8, 8]);
+    (0..len).map(|_| if rng.below(8) < density { Some(rand_name(rng)) } else { None }).collect()
+}
+
+fn line(n: usize, meta: &Name, clip: &[Name], sets: &[Vec<Name>]) -> String {
+    let mut s = format!("c17.{:06} aset {} {}", n, show_opt(meta), show_list("c:", clip));
+    for set in sets {
+        s.push(' ');
+        s.push_str(&show_list("s:", set));
+    }
+    s
+}
+
+pub fn gen(seed: u64, tier: &str) -> Vec<String> {
+    let mut rng = Rng::new(seed ^ 0xC17);
+    let thorough = tier == "thorough";
+    let mut lines = Vec::new();
+    let mut n = 0;
+    let mut push = |lines: &mut Vec<String>, meta: &Name, clip: &[Name], sets: &[Vec<Name>]| {
+        lines.push(line(n, meta, clip, sets));
+        n += 1;
+    };
+    // fixed corner cases
+    let none_table: Vec<Name> = vec![None; 257];
+    push(&mut lines, &None, &none_table, &[]);
+    push(&mut lines, &Some(String::new()), &none_table, &[vec![None; 257]]);
+    push(&mut lines, &Some("m".into()), &none_table, &[vec![None; 257], vec![None; 257]]);
+    {
+        // a set labelled with the reserved table name (D17), followed and preceded by others
+        let mut s1: Vec<Name> = vec![None; 257];
+        s1[0] = Some("AnimClipNameTable".into());
+        s1[1] = Some("x".into());
+        let mut s2: Vec<Name> = vec![None; 257];
+        s2[0] = Some("AnimClipNameTable".into());
+        s2[256] = Some("".into());
+        let t = rand_table(&mut rng, 257);
+        push(&mut lines, &Some("AnimClipNameTable".into()), &t, &[s1.clone()]);
+        push(&mut lines, &None, &t, &[s2.clone(), s1.clone(), vec![None; 257]]);
+    }
+    {
+        // all 256 slots present, all empty strings
+        let mut s: Vec<Name> = vec![Some(String::new()); 257];
+        s[0] = None;
+        push(&mut lines, &None, &vec![Some(String::new()); 257], &[s]);
+    }
+    // every slot alone (thorough: all 256; quick: a rotating sample incl. group borders)
+    let singles: Vec<usize> = if thorough {
+        (1..=256).collect()
+    } else {
+        let mut v = vec![1, 32, 33, 64, 224, 225, 255, 256];
+        for _ in 0..8 {
+            v.push(rng.range(1, 256) as usize);
+        }
+        v
+    };
+    for slot in singles {
+        let t = rand_table(&mut rng, 257);
+        let s = single_slot_set(&mut rng, slot);
+        let meta = if rng.chance(1, 2) { Some(rand_name(&mut rng)) } else { None };
+        push(&mut lines, &meta, &t, &[s]);
+    }
+    // random files
+    let count = if thorough { 2500 } else { 110 };
+    for _ in 0..count {
+        let meta = match rng.below(4) {
+            0 => None,
+            1 => Some(String::new()),
+            _ => Some(rand_name(&mut rng)),
+        };
+        let t = rand_table(&mut rng, 257);
+        let nsets = *rng.pick(&[0usize, 1, 1, 2, 3, 5]);
+        let sets: Vec<Vec<Name>> = (0..nsets).map(|_| rand_set(&mut rng, 257)).collect();
+        push(&mut lines, &meta, &t, &sets);
+    }
+    // outside the property's domain (model correspondence only; the oracle skips them):
+    // other set / table lengths, the empty set (`set[0]` panics)
+    let odd = if thorough { 200 } else { 14 };
+    for k in 0..odd {
+        let tl = if k % 3 == 0 { *rng.pick(&[0usize, 1, 5, 256, 258, 300]) } else { 257 };
+        let t = rand_table(&mut rng, tl);
+        let nsets = rng.range(1, 3) as usize;
+        let sets: Vec<Vec<Name>> = (0..nsets)
+            .map(|_| {
+                let len = *rng.pick(&[0usize, 1, 2, 32, 33, 34, 100, 256, 257, 258, 300]);
+                rand_set(&mut rng, len)
+            })
+            .collect();
+        push(&mut lines, &Some("odd".into()), &t, &sets);
+    }
+    lines
 }
 
 pub fn run_line(_st: &mut super::State, line: &str) -> String {
-    let id = line.split(' ').next().unwrap_or("?");
-    format!("{} unimplemented", id)
+    let f: Vec<&str> = line.split(' ').collect();
+    let id = f[0];
+    let file = ASetFile {
+        meta: opt_of(f[2]),
+        anim_clip_table: list_of(f[3]),
+        sets: f[4..].iter().map(|s| list_of(s)).collect(),
+    };
+    let out = match no_panic(|| file.serialize()) {
+        Err(_) => "panic".to_string(),
+        Ok(Err(_)) => "err".to_string(),
+        Ok(Ok(bytes)) => match no_panic(|| BinArchive::from_bytes(&bytes, Endian::Little)) {
+            Err(_) => format!("ok ? {} rr-panic", hex(&bytes)),
+            Ok(Err(_)) => format!("ok ? {} rr-err", hex(&bytes)),
+            Ok(Ok(archive)) => {
+                let head = format!("ok {} {}", archive.size(), hex(&bytes));
+                match no_panic(|| ASetFile::from_archive(&archive)) {
+                    Err(_) => format!("{} rr-panic", head),
+                    Ok(Err(_)) => format!("{} rr-err", head),
+                    Ok(Ok(again)) => {
+                        let re = match no_panic(|| again.serialize()) {
+                            Err(_) => "panic".to_string(),
+                            Ok(Err(_)) => "err".to_string(),
+                            Ok(Ok(b2)) => {
+                                if b2 == bytes {
+                                    "same".to_string()
+                                } else {
+                                    hex(&b2)
+                                }
+                            }
+                        };
+                        format!("{} rr-ok {} {}", head, show_file(&again), re)
+                    }
+                }
+            }
+        },
+    };
+    format!("{} {}", id, out)
 }
